@@ -92,9 +92,13 @@ func tolerate(id string) bool {
 
 // present passes evidence to a node the way real callers do: "wire" = decoded from protobuf (reactor, block
 // parts), "direct" = a local object that passed ValidateBasic (RPC broadcast_evidence, consensus).
-func present(ev types.Evidence, wire bool) (types.Evidence, error) {
-	if wire {
+// "wire-hostile" = wire, written by an encoder that forges every field no hash or signature covers (forgeUnhashed).
+func present(t *rapid.T, ev types.Evidence, form string) (types.Evidence, error) {
+	switch form {
+	case "wire":
 		return lib.WireEvidence(ev)
+	case "wire-hostile":
+		return lib.WireEvidenceWith(ev, func(pb *tmproto.Evidence) { forgeUnhashed(t, pb) })
 	}
 	if err := ev.ValidateBasic(); err != nil {
 		return nil, err
@@ -149,7 +153,7 @@ func TestAdmission(t *testing.T) {
 		w := newWorld(t)
 		defer w.c.Close()
 		for i, n := 0, rapid.IntRange(3, 12).Draw(t, "len"); i < n; i++ {
-			if err := w.c.Advance(w.genPlan(t)); err != nil {
+			if err := w.advance(w.genPlan(t)); err != nil {
 				t.Fatalf("VERIF-INFRA: Advance: %v", err)
 			}
 		}
@@ -158,13 +162,9 @@ func TestAdmission(t *testing.T) {
 		nontrivial := false
 		for j := 0; j < k; j++ {
 			it := w.genItem(t)
-			wire := rapid.Bool().Draw(t, "wire")
+			form := rapid.SampledFrom(forms).Draw(t, "form")
 			r := w.ref(it.ev)
-			form := "direct"
-			if wire {
-				form = "wire"
-			}
-			offered, perr := present(it.ev, wire)
+			offered, perr := present(t, it.ev, form)
 			var errA, errC error = perr, perr
 			addOK, checkOK := false, false
 			if perr == nil {
@@ -315,7 +315,7 @@ func (m *model) drawItem(t *rapid.T, validOnly bool) (*mItem, refOut, bool) {
 			x = rapid.SampledFrom(m.universe).Draw(t, "known")
 		} else {
 			it := m.w.genItem(t)
-			ev, err := present(it.ev, rapid.Bool().Draw(t, "wire"))
+			ev, err := present(t, it.ev, rapid.SampledFrom(forms).Draw(t, "form"))
 			if err != nil {
 				lib.Class("TestLifecycle", "offer:malformed-before-pool")
 				continue
@@ -336,28 +336,38 @@ func (m *model) expired(h int64) bool { e, _ := m.w.ageClass(h); return e }
 // listVerdict judges a block's evidence list from the property: every item valid, fresh, not committed, not
 // repeated. lenientExpired emulates known finding kfExpired (pending duplicate-vote evidence is not re-checked for
 // expiry).
-func (m *model) listVerdict(list []*mItem, lenientExpired bool) (ok bool, why string) {
+// undecided: no item is definitely inadmissible but the reference cannot decide one of them (AMBIGUOUS) — then either
+// answer is tolerated.
+func (m *model) listVerdict(list []*mItem, lenientExpired bool) (ok bool, why string, undecided bool) {
+	defer func() {
+		if !ok {
+			undecided = false // a definite offender decides the list whatever else is in it
+		}
+	}()
 	seen := map[string]bool{}
 	for i, x := range list {
 		switch {
 		case m.committed[x.hash]:
-			return false, fmt.Sprintf("#%d already committed", i)
+			return false, fmt.Sprintf("#%d already committed", i), false
 		case seen[x.hash]:
-			return false, fmt.Sprintf("#%d repeated in the list", i)
+			return false, fmt.Sprintf("#%d repeated in the list", i), false
 		}
 		seen[x.hash] = true
 		if !x.isLCA && m.pending[x.hash] != nil {
 			// the very same bytes were verified when they were admitted; only freshness can have changed
 			if m.expired(x.h) && !lenientExpired {
-				return false, fmt.Sprintf("#%d expired (still pending)", i)
+				return false, fmt.Sprintf("#%d expired (still pending)", i), false
 			}
 			continue
 		}
-		if r := m.w.ref(x.ev); r.v != vValid {
-			return false, fmt.Sprintf("#%d %s: %s", i, r.v, r.why)
+		switch r := m.w.ref(x.ev); r.v {
+		case vInvalid:
+			return false, fmt.Sprintf("#%d %s: %s", i, r.v, r.why), false
+		case vAmbig:
+			undecided, why = true, fmt.Sprintf("#%d %s: %s", i, r.v, r.why)
 		}
 	}
-	return true, ""
+	return true, why, undecided
 }
 
 func evList(list []*mItem) types.EvidenceList {
@@ -391,11 +401,13 @@ func (m *model) check(t *rapid.T, list []*mItem, ctx string) bool {
 	before := m.poolSet()
 	e0, p0 := guarded(func() error { return m.pool.CheckEvidence(evList(list)) })
 	err := poolErr(t, evList(list), e0, p0)
-	ok, why := m.listVerdict(list, false)
-	m.log("%s check %s -> err=%v (model: ok=%v %s)", ctx, names(list), err != nil, ok, why)
-	if ok != (err == nil) {
+	ok, why, undecided := m.listVerdict(list, false)
+	m.log("%s check %s -> err=%v (model: ok=%v undecided=%v %s)", ctx, names(list), err != nil, ok, undecided, why)
+	if undecided {
+		lib.Class("TestLifecycle", "check:undecided-by-reference")
+	} else if ok != (err == nil) {
 		// the only tolerated deviation: listed known finding kfExpired
-		if ok2, _ := m.listVerdict(list, true); ok2 == (err == nil) && tolerate(kfExpired) {
+		if ok2, _, _ := m.listVerdict(list, true); ok2 == (err == nil) && tolerate(kfExpired) {
 			ok = ok2
 		} else {
 			m.fatalf(t, "%s: CheckEvidence(%s) err=%v but the property says ok=%v (%s)\n tip=%d", ctx, names(list), short(err), ok, why, m.w.tip())
@@ -415,7 +427,7 @@ func (m *model) check(t *rapid.T, list []*mItem, ctx string) bool {
 			m.fatalf(t, "CheckEvidence accepted %s but it is not in the pool afterwards", names(list))
 		}
 		if after[x.hash] && !before[x.hash] && m.pending[x.hash] == nil {
-			if r := m.w.ref(x.ev); r.v != vValid || m.committed[x.hash] {
+			if r := m.w.ref(x.ev); r.v == vInvalid || m.committed[x.hash] {
 				m.fatalf(t, "CheckEvidence put %s into the pool: %s %s committed=%v", x.it, r.v, r.why, m.committed[x.hash])
 			}
 			m.pending[x.hash] = x
@@ -582,8 +594,11 @@ func TestLifecycle(t *testing.T) {
 				}
 			}
 			plan.Evidence = evList(list)
-			if err := w.c.Advance(plan); err != nil {
+			if err := w.advance(plan); err != nil {
 				m.fatalf(t, "ApplyBlock with evidence %s failed: %v", names(list), err)
+			}
+			if plan.Params != nil {
+				m.log("   (evidence params now: MaxAgeNumBlocks=%d MaxAgeDuration=%s)", w.maxBlocks, w.maxDur)
 			}
 			tip := w.tip()
 			// conflicting votes whose height is now decided become pending
@@ -728,6 +743,26 @@ func TestLifecycle(t *testing.T) {
 				m.reports++
 				m.log("report votes h=%d (tip=%d)", h, tip)
 			},
+			"propose": func(t *rapid.T) {
+				// what CreateProposalBlock does: take PendingEvidence(maxBytes) as the block's evidence; every validator
+				// (this node included) then validates exactly that list. Whatever the pool hands out is judged like any
+				// other block content: accepted <=> valid, fresh, uncommitted, unrepeated.
+				max := rapid.SampledFrom([]int64{-1, 1 << 20, 3000, 800}).Draw(t, "maxb")
+				got, _ := m.pool.PendingEvidence(max)
+				if len(got) == 0 {
+					t.Skip("nothing pending")
+				}
+				var list []*mItem
+				for _, e := range got {
+					x := m.pending[string(e.Hash())]
+					if x == nil {
+						m.fatalf(t, "PendingEvidence hands out evidence the model never admitted: %s", describeEv(e))
+					}
+					list = append(list, m.intern(x.it, e))
+				}
+				ok := m.check(t, list, "own-proposal")
+				lib.Class(name, fmt.Sprintf("propose:len%d:%v", min(len(list), 3), ok))
+			},
 			"advance":           func(t *rapid.T) { advance(t, "") },
 			"advance-evidence":  func(t *rapid.T) { advance(t, "validated") },
 			"advance-blocksync": func(t *rapid.T) { advance(t, "blocksync") },
@@ -789,7 +824,7 @@ func TestLifecycle(t *testing.T) {
 		cls := []string{fmt.Sprintf("commits:%d", min(m.commits, 3)), fmt.Sprintf("reoffers-of-committed:%d", min(m.reoffers, 3)),
 			fmt.Sprintf("expiries:%d", min(m.expiries, 3)), fmt.Sprintf("restarts:%d", min(m.restarts, 2)),
 			fmt.Sprintf("reports-flushed:%d", min(m.reportsFlushed, 3)), fmt.Sprintf("lists-with-repeats:%d", min(m.dupLists, 2)),
-			fmt.Sprintf("commits-never-pending:%d", min(m.blindCommits, 3)), fmt.Sprintf("reoffers-of-never-pending-committed:%d", min(m.blindReoffers, 3))}
+			fmt.Sprintf("evidence-param-changes:%d", min(w.paramChanges, 3)), fmt.Sprintf("commits-never-pending:%d", min(m.blindCommits, 3)), fmt.Sprintf("reoffers-of-never-pending-committed:%d", min(m.blindReoffers, 3))}
 		cls = append(cls, ks...)
 		lib.Case(name, lib.FP(strings.Join(m.ops, ";")), nontrivial, cls...)
 		if nontrivial && lib.WantSample(name) {
